@@ -2,8 +2,8 @@
 import itertools
 from .. import core, lspclient, cli
 
-RULE = ('all didOpen/didChange sequences of length <= L over 2 URIs x 5 texts (valid, lexical error, syntax error, semantic '
-        'error, depends-on-other-document) enumerated exhaustively (quick: L=2 plus a seeded sample of L=3; thorough: L=3 '
+RULE = ('all didOpen/didChange sequences of length <= L over 2 URIs x 6 texts (valid, lexical error, syntax error, semantic '
+        'error, depends-on-other-document, the semantic error again in another layout) enumerated exhaustively (quick: L=2 plus a seeded sample of L=3; thorough: L=3 '
         'plus a sample of L=4) plus random histories up to length 40 with unrelated traffic; every prefix is checked: one '
         'publish per edit with the version (against the Lean model), last publish == publish of a fresh server given the '
         'canonical history (other documents first, edited document last), and == codes and start positions of '
@@ -16,6 +16,8 @@ TEXTS = [
     'PROGRAM p2\nVAR a : BOOL END_VAR\nEND_PROGRAM\n',
     'PROGRAM p3\n  VAR a : BOOL; END_VAR\n  (* é *) b := TRUE;\nEND_PROGRAM\n',
     'FUNCTION_BLOCK user_fb\nVAR h : helper_fb; END_VAR\nh(i := TRUE);\nEND_FUNCTION_BLOCK\n',
+    # the semantic-error program again, the same tokens at other offsets (layout and comments only differ)
+    '(* moved *)\n\nPROGRAM p3\n  VAR a : BOOL; END_VAR\n\n  (* é *)   b := TRUE;\nEND_PROGRAM\n',
 ]
 URIS = ['f0', 'f1']
 FILELESS = {'P0030', 'P9999'}
